@@ -33,14 +33,17 @@ package syncer
 // lane stalled.
 
 import (
+	"bufio"
 	"context"
 	"fmt"
+	"io"
 	"os"
 	"strconv"
 	"strings"
 	"sync"
 	"sync/atomic"
 	"testing"
+	"testing/synctest"
 	"time"
 
 	"github.com/mgtv-tech/redis-GunYu/config"
@@ -214,7 +217,6 @@ func vfC14Loop(t *testing.T, s *vfutil.Session, c *vfLCase, src string) {
 	var samples [][3]int64
 	var samplesMu sync.Mutex
 	var startEnd int
-	var startConns map[int]bool
 	inner := strings.HasPrefix(c.fault, "inner:")
 	run := func(failAt map[int]string) (*vfdoubles.Target, int, error, *RedisOutput, vfLPoint) {
 		tg := vfdoubles.NewTarget()
@@ -259,12 +261,8 @@ func vfC14Loop(t *testing.T, s *vfutil.Session, c *vfLCase, src string) {
 		if !st.ok {
 			return tg, nSeed, fmt.Errorf("first start: %s", st.text), ro, st
 		}
-		// the start (with its recovery requests) has returned: the connections it used
+		// the start (with its recovery requests) has returned
 		startEnd = tg.LogLen()
-		startConns = map[int]bool{}
-		for _, e := range tg.LogCopy()[nSeed:] {
-			startConns[e.Conn] = true
-		}
 		w := wire
 		if i := vfLIndexOf(ends, st.off); i >= 0 {
 			w = wire[ends[i]-vfLStart:]
@@ -341,13 +339,13 @@ func vfC14Loop(t *testing.T, s *vfutil.Session, c *vfLCase, src string) {
 		s.Violate("loop-first-start-fails", first.text, rep(nil))
 		return
 	}
-	// the recovery of the start is over before the send loop issues its first request (the split queue of
-	// Model/FrontierTraffic.lean): no connection the start used appears again once the loop runs
-	for i := startEnd; i < len(log); i++ {
-		if startConns[log[i].Conn] {
-			s.Violate("loop-recovery-overlaps-send-loop", fmt.Sprintf("request #%d (%s) comes from a connection StartPoint used, after StartPoint returned", i-nSeed, log[i].String()), rep(nil))
-			break
-		}
+	// tie to the shape Model/FrontierTraffic.lean assumes (not the property itself): the recovery of a start is
+	// over when StartPoint returns. Recovery requests are recognised by KIND and number, not by connection:
+	// after a start that resumed after unit K no request saves a frontier numbered <= K, deletes the
+	// snapshot, or deletes / un-indexes a journal record numbered <= K (the coordinator of the loop that
+	// follows only saves frontiers > K and deletes records > K).
+	if at, what := vfLRecoveryAfterStart(log, startEnd, first.seq); at >= 0 {
+		s.Violate("tie-shape:recovery-request-after-start-returned", fmt.Sprintf("StartPoint returned (resume after unit %d) before request #%d; request #%d is a recovery request: %s", first.seq, startEnd-nSeed+1, at-nSeed+1, what), rep(nil))
 	}
 	s.Count("loop_recovery_before_loop_checked")
 	startIdx := vfLIndexOf(ends, first.off)
@@ -609,6 +607,15 @@ func vfC14Loop(t *testing.T, s *vfutil.Session, c *vfLCase, src string) {
 				n2 := tk.LogLen()
 				_, _ = vfBisyncLoopRun(t, ro2, tk, vfLRid, wire[ends[i]-vfLStart:], st.off, 300*time.Millisecond)
 				log2 := tk.LogCopy()
+				// (the start of the resumed run ended at the first unit transaction: everything before the first MULTI)
+				firstMulti := n2
+				for firstMulti < len(log2) && log2[firstMulti].Cmd() != "multi" {
+					firstMulti++
+				}
+				if at, what := vfLRecoveryAfterStart(log2, firstMulti, st.seq); at >= 0 {
+					s.Violate("tie-shape:recovery-request-after-start-returned", fmt.Sprintf("resumed run (restart after request #%d, resume after unit %d): request #%d of its log, after the first unit transaction began, is a recovery request: %s", k-nSeed, st.seq, at-n2+1, what),
+						rep(map[string]interface{}{"crash_after_request": k - nSeed, "start": st.text}))
+				}
 				com := vfLCommitted(replay2(log2), ks)
 				for u := startIdx + 1; u < len(com); u++ {
 					if !com[u] {
@@ -709,6 +716,238 @@ func vfC14LoopParse(op string) *vfLCase {
 	return c
 }
 
+// vfLRecoveryAfterStart: first request at index >= from that only the recovery of a start (resumed after unit k0)
+// issues: HSET <cp>:frontier with unit_seq <= k0, DEL <cp>:frontier, DEL / ZREM of journal keys numbered <= k0.
+func vfLRecoveryAfterStart(log []vfdoubles.LogEntry, from int, k0 int64) (int, string) {
+	fkey := checkpoint.BisyncFrontierKey(vfC14Cp)
+	num := func(key string) (int64, bool) {
+		if !strings.Contains(key, ":commit:{") {
+			return 0, false
+		}
+		n, err := strconv.ParseInt(key[strings.LastIndexByte(key, ':')+1:], 10, 64)
+		return n, err == nil
+	}
+	for i := from; i < len(log); i++ {
+		e := log[i]
+		if e.Queued || len(e.Args) < 2 {
+			continue
+		}
+		switch e.Cmd() {
+		case "hset":
+			if string(e.Args[1]) == fkey {
+				for j := 2; j+1 < len(e.Args); j += 2 {
+					if string(e.Args[j]) == "unit_seq" {
+						if n, err := strconv.ParseInt(string(e.Args[j+1]), 10, 64); err == nil && n <= k0 {
+							return i, fmt.Sprintf("hset frontier unit_seq=%d", n)
+						}
+					}
+				}
+			}
+		case "del", "unlink":
+			for _, a := range e.Args[1:] {
+				if string(a) == fkey {
+					return i, "del frontier"
+				}
+				if n, ok := num(string(a)); ok && n <= k0 {
+					return i, fmt.Sprintf("del journal record %d", n)
+				}
+			}
+		case "zrem":
+			for _, a := range e.Args[2:] {
+				if n, ok := num(string(a)); ok && n <= k0 {
+					return i, fmt.Sprintf("zrem journal record %d", n)
+				}
+			}
+		}
+	}
+	return -1, ""
+}
+
+// A parallel loop that is stopped while a lane still holds a unit, then the SAME process starts again
+// (RedisInput.Run loops: run() -> syncMeta -> output.StartPoint -> Send): the next start reads and cleans
+// the commit journal, the next loop re-sends from the point it returned. A unit transaction of the stopped
+// loop that reaches the target after that is applied out of order - after newer writes of the same key -
+// and its journal record lands in a numbering that has moved on. What must hold: once the loop has
+// returned, none of its lanes commits any more; and after the whole stream was replayed the target holds
+// the last value of every key.
+// Shape: two lanes; unit 1 (key A) rides the lane that stalls inside the unit's MULTI, unit 2 (key B)
+// commits on the other lane, the run is stopped; the next run resumes and replays units 1, 2 and 3
+// (unit 3 writes key A again); then the stalled lane is released.
+func vfC14Linger(t *testing.T, s *vfutil.Session, mode string) {
+	c := &vfLCase{mode: mode, lanes: 2, n: 2, slow: []int{1}}
+	ks := c.keys()
+	var wire []byte
+	ends := []int64{vfLStart}
+	for _, cmd := range [][]string{{"set", ks[1], "v1"}, {"set", ks[2], "v2"}, {"set", ks[1], "v3"}} {
+		bs := make([][]byte, len(cmd))
+		for i, a := range cmd {
+			bs[i] = []byte(a)
+		}
+		wire = append(wire, vfEncodeCmd(bs)...)
+		ends = append(ends, vfLStart+int64(len(wire)))
+	}
+	tg := vfdoubles.NewTarget()
+	c.seed(tg)
+	var stalled atomic.Bool
+	tg.Hook = func(idx int, e vfdoubles.LogEntry) {
+		if e.Cmd() == "set" && e.Queued && len(e.Args) > 1 && string(e.Args[1]) == ks[1] && !stalled.Swap(true) {
+			time.Sleep(60 * time.Millisecond)
+		}
+	}
+	ids := []string{vfLRid, "0000000000000000000000000000000000000000"}
+	nSeed := tg.LogLen()
+	var nRet, nSp int
+	var sp1, sp2 StartPoint
+	var errS1, errS2, err1, err2 error
+	synctest.Test(t, func(t *testing.T) {
+		ro := c.output(tg)
+		ctx := context.Background()
+		sp1, errS1 = ro.StartPoint(ctx, ids)
+		if errS1 != nil {
+			tg.CloseAll()
+			return
+		}
+		loop := func(lctx context.Context, from int64, upTo int64) (chan error, *io.PipeReader, *io.PipeWriter) {
+			pr, pw := io.Pipe()
+			done := make(chan error, 1)
+			go func() { done <- ro.sendAofBisync(lctx, vfLRid, bufio.NewReaderSize(pr, 4096), from, 0) }()
+			go func() { pw.Write(wire[from-vfLStart : upTo-vfLStart]) }()
+			return done, pr, pw
+		}
+		ctx1, cancel1 := context.WithCancel(ctx)
+		done1, pr1, pw1 := loop(ctx1, sp1.Offset, ends[2]) // units 1 and 2 so far
+		synctest.Wait()                                    // unit 2 is committed, the other lane stalls inside unit 1
+		cancel1()                                          // the run is stopped
+		err1 = <-done1
+		pr1.Close()
+		pw1.Close()
+		nRet = tg.LogLen()
+		// the same process starts again
+		sp2, errS2 = ro.StartPoint(ctx, ids)
+		nSp = tg.LogLen()
+		if errS2 == nil {
+			ctx2, cancel2 := context.WithCancel(ctx)
+			done2, pr2, pw2 := loop(ctx2, sp2.Offset, ends[3]) // the stream has gone on: unit 3 writes key A again
+			synctest.Wait()
+			time.Sleep(300 * time.Millisecond) // the stalled lane of the first loop is released meanwhile
+			synctest.Wait()
+			pw2.Close()
+			err2 = <-done2
+			pr2.Close()
+			cancel2()
+		}
+		time.Sleep(300 * time.Millisecond)
+		synctest.Wait()
+		tg.CloseAll()
+	})
+	s.Count("linger_" + mode)
+	op := fmt.Sprintf("c14linger mode=%s", mode)
+	rep := map[string]interface{}{"op": op}
+	if errS1 != nil || errS2 != nil {
+		s.Violate("loop-restart-fails", fmt.Sprintf("start: %v / %v", errS1, errS2), rep)
+		return
+	}
+	log := tg.LogCopy()
+	oldConn := map[int]bool{}
+	for _, e := range log[nSeed:nRet] {
+		oldConn[e.Conn] = true
+	}
+	for i := nRet; i < len(log); i++ {
+		if log[i].Cmd() == "exec" && oldConn[log[i].Conn] {
+			s.Violate("loop-lane-commits-after-loop-returned", fmt.Sprintf("the first loop returned (%v) after request #%d; the same process started again (resume %d, requests #%d..#%d) and replayed on; request #%d is the EXEC of a unit of the FIRST loop's stalled lane",
+				err1, nRet-nSeed, sp2.Offset, nRet-nSeed+1, nSp-nSeed, i-nSeed+1), rep)
+			break
+		}
+	}
+	final := vfdoubles.ReplayWith(log, 0, true)
+	if v := final.Get(0, ks[1]); v == nil || string(v.Str) != "v3" {
+		got := "<absent>"
+		if v != nil {
+			got = string(v.Str)
+		}
+		s.Violate("loop-stale-unit-overwrites-newer", fmt.Sprintf("stream: set A v1; set B v2; set A v3 - replayed to the end (second loop: %v); the target holds A = %s: the first loop's unit 1 was applied after the second loop's unit 3", err2, got), rep)
+	}
+	if v := final.Get(0, ks[2]); v == nil || string(v.Str) != "v2" {
+		s.Violate("loop-unit-lost", "key B missing after the whole stream was replayed", rep)
+	}
+}
+
+// A start that has journal records to consume (snapshot at unit 1, records 2 and 3: resume after unit 3, the
+// rebuilt frontier is saved and the records deleted), then - in the same process, same virtual clock - the send
+// loop for units 4 and 5 with its flush ticks. After StartPoint returned: no recovery request any more
+// (tie-shape), and at every request prefix a fresh start resumes at a point not before the previous prefix's.
+func vfC14RecoverThenLoop(t *testing.T, s *vfutil.Session, mode string) {
+	c := &vfLCase{mode: mode, lanes: 1, n: 5}
+	wire, ends, ks := c.wire()
+	tg := vfdoubles.NewTarget()
+	c.seed(tg)
+	tag := checkpoint.BisyncSlotTag(0)
+	for q := 1; q <= 3; q++ {
+		tg.Seed(0, "set", ks[q], "v"+strconv.Itoa(q))
+	}
+	fr := &checkpoint.BisyncFrontierSnapshot{Version: config.Version, RunID: vfLRid, UnitSeq: 1, Offset: ends[1], MTime: 1}
+	tg.Seed(0, vfArgs(checkpoint.BisyncFrontierKey(vfC14Cp), fr.HashArgs())...)
+	for q := int64(2); q <= 3; q++ {
+		k := checkpoint.BisyncCommitRecordKey(vfC14Cp, tag, q)
+		rec := &checkpoint.BisyncCommitRecord{Key: k, Version: config.Version, RunID: vfLRid, SyncerID: "vf", UnitSeq: q, StartOffset: ends[q-1], EndOffset: ends[q], MTime: 1, Digest: "d"}
+		tg.Seed(0, vfArgs(k, rec.HashArgs())...)
+		tg.Seed(0, "zadd", checkpoint.BisyncCommitIndexKey(vfC14Cp, tag), strconv.FormatInt(q, 10), k)
+	}
+	nSeed := tg.LogLen()
+	ids := []string{vfLRid, "0000000000000000000000000000000000000000"}
+	var sp StartPoint
+	var seq int64
+	var errS, errL error
+	nStart := 0
+	synctest.Test(t, func(t *testing.T) {
+		ro := c.output(tg)
+		ctx, cancel := context.WithCancel(context.Background())
+		defer cancel()
+		sp, errS = ro.StartPoint(ctx, ids)
+		seq = ro.bisyncSeq.Load()
+		nStart = tg.LogLen()
+		if errS == nil && sp.Offset >= vfLStart && sp.Offset <= ends[len(ends)-1] {
+			pr, pw := io.Pipe()
+			done := make(chan error, 1)
+			go func() { done <- ro.sendAofBisync(ctx, vfLRid, bufio.NewReaderSize(pr, 4096), sp.Offset, 0) }()
+			go func() { pw.Write(wire[sp.Offset-vfLStart:]) }()
+			synctest.Wait()
+			time.Sleep(400 * time.Millisecond)
+			synctest.Wait()
+			pw.Close()
+			errL = <-done
+			pr.Close()
+		}
+		time.Sleep(400 * time.Millisecond)
+		synctest.Wait()
+		tg.CloseAll()
+	})
+	s.Count("recover_then_loop_" + mode)
+	rep := map[string]interface{}{"op": "c14recoverloop mode=" + mode}
+	if errS != nil || sp.Offset != ends[3] {
+		s.Violate("loop-restart-fails", fmt.Sprintf("snapshot at unit 1, journal 2, 3: StartPoint = %d (%v), expected %d", sp.Offset, errS, ends[3]), rep)
+		return
+	}
+	log := tg.LogCopy()
+	if at, what := vfLRecoveryAfterStart(log, nStart, seq); at >= 0 {
+		s.Violate("tie-shape:recovery-request-after-start-returned", fmt.Sprintf("StartPoint returned (resume after unit %d) before request #%d; request #%d is a recovery request: %s (loop: %v)", seq, nStart-nSeed+1, at-nSeed+1, what, errL), rep)
+	}
+	prev := int64(-1)
+	for k := nStart; k <= len(log); k++ {
+		if k < len(log) && k > 0 && log[k-1].Queued {
+			continue
+		}
+		st, _ := vfLRead(c, vfdoubles.ReplayWith(log[:k], 0, true))
+		if !st.ok || st.off < prev {
+			s.Violate("loop-resume-moves-backwards", fmt.Sprintf("start consumed the journal and resumed after unit 3, the loop replayed units 4, 5: a stop after an earlier request resumed at %d, a stop after request #%d (%s) resumes at %s", prev, k-nSeed, log[k-1].String(), st.text),
+				rep)
+			break
+		}
+		prev = st.off
+		s.Count("recover_then_loop_crash_points")
+	}
+}
+
 func TestVerifC14Loop(t *testing.T) {
 	s := vfutil.NewSession("C14loop")
 	defer s.Close()
@@ -740,5 +979,11 @@ func TestVerifC14Loop(t *testing.T) {
 	n = vfutil.Scale(14, 600)
 	for i := 0; i < n; i++ {
 		vfC14Loop(t, s, vfC14LoopGenLanes(r.Fork()), "lanes")
+	}
+	for _, m := range []string{"F", "P", "L"} {
+		vfC14Linger(t, s, m)
+	}
+	for _, m := range []string{"F", "P"} {
+		vfC14RecoverThenLoop(t, s, m)
 	}
 }
